@@ -164,6 +164,19 @@ G = {g}
 def mk(k):
     return lambda x: x * k + G + {c}
 ''',
+    # not convertible (for/else): transform_ast raises, nothing is cached, every request retries
+    'broken': '''
+G = {g}
+def mkb(k):
+    def b(x):
+        for i in range(x):
+            if i == k:
+                break
+        else:
+            return G
+        return i + {c}
+    return b
+''',
 }
 
 
@@ -268,6 +281,8 @@ class Group(object):
                     Fn(ns['K'].m, [(k1, 3), (k2, 30)], 'plain function K.m')]
         elif kind == 'lambda':
             out += [Fn(ns['mk'](2), [(3,)], 'lambda k=2'), Fn(ns['mk'](5), [(3,)], 'lambda k=5')]
+        elif kind == 'broken':
+            out += [Fn(ns['mkb'](1), [(3,), (1,)], 'unconvertible k=1'), Fn(ns['mkb'](4), [(3,), (9,)], 'unconvertible k=4')]
         self.fns = out
         return out
 
@@ -337,6 +352,7 @@ class Recorder(object):
         self._modtok = {}
         self.hook = None               # callable(kind, thread index, result), called outside the mutex
         self.last = {}                 # thread index -> kind of its last logged event
+        self.pending_x = {}            # thread index -> request whose conversion is running (event not yet logged)
 
     # ---- threads
     def register_thread(self, index):
@@ -507,6 +523,36 @@ class Recorder(object):
         if len(e) > 1 and isinstance(e[1], int):
             self.last[e[1]] = e[0]
 
+    def flush_x(self, t, ok):
+        """The conversion (parse + transform_ast + factory.create) of thread t has ended: log it.  Called
+        (under the mutex) before the thread's next logged operation (ok) or when its exception leaves the
+        critical section (not ok).  The step is thread-local, so logging it late does not reorder anything
+        observable."""
+        req = self.pending_x.pop(t, None)
+        if req is None:
+            return False
+        self.log('xform', t, bool(ok))
+        req['x_logged'] = True
+        if ok:
+            k = (req['code'], req['opt'])
+            self.xcount[k] = self.xcount.get(k, 0) + 1
+        else:
+            req['xfail'] = True
+        return True
+
+    def conversion_raised(self, t):
+        """An exception leaves `with self._cache_lock`."""
+        if self.flush_x(t, False):
+            return
+        req = getattr(self.tl, 'req', None)
+        if self.last.get(t) == 'oset':
+            self.raw_keyerror(t)
+        elif req is not None and not req.get('x_logged'):
+            # raised before transform_ast was reached (source lookup, parsing)
+            self.log('xform', t, False)
+            req['x_logged'] = True
+            req['xfail'] = True
+
     def raw_keyerror(self, t):
         """`parent[subkey]` on a bucket cache.py has just created as a plain (empty) dict cannot be
         intercepted; its KeyError is the only possible outcome and is logged when it propagates."""
@@ -525,6 +571,7 @@ class BucketProxy(object):
         rec = self.rec
         rec.maybe_yield()
         with rec.mutex:
+            rec.flush_x(rec.t(), True)
             rec.emit(rec.scan())
             r = k in self.raw
             post = rec.scan()
@@ -542,6 +589,7 @@ class BucketProxy(object):
         rec = self.rec
         rec.maybe_yield()
         with rec.mutex:
+            rec.flush_x(rec.t(), True)
             rec.emit(rec.scan())
             try:
                 v = self.raw[k]
@@ -563,6 +611,7 @@ class BucketProxy(object):
         rec = self.rec
         rec.maybe_yield()
         with rec.mutex:
+            rec.flush_x(rec.t(), True)
             rec.emit(rec.scan())
             self.raw[k] = v
             ch = rec.scan()
@@ -605,6 +654,7 @@ class LoggingWKD(weakref.WeakKeyDictionary):
         rec = self._rec
         rec.maybe_yield()
         with rec.mutex:
+            rec.flush_x(rec.t(), True)
             rec.emit(rec.scan())
             r = weakref.WeakKeyDictionary.get(self, key, None)
             kv = rec.code_info.get(rec.code_serial(key)) if isinstance(key, types.CodeType) else None
@@ -631,6 +681,7 @@ class LoggingWKD(weakref.WeakKeyDictionary):
         rec = self._rec
         rec.maybe_yield()
         with rec.mutex:
+            rec.flush_x(rec.t(), True)
             rec.emit(rec.scan())
             weakref.WeakKeyDictionary.__setitem__(self, key, value)
             if not isinstance(value, dict) or not isinstance(key, types.CodeType):
@@ -698,6 +749,7 @@ class LoggingLock(object):
         try:
             self.rec.maybe_yield()
             with self.rec.mutex:
+                self.rec.flush_x(self.rec.t(), True)
                 self.rec.emit(self.rec.scan())
                 self.rec.log('rel', self.rec.t())
         except Exception:      # noqa
@@ -710,9 +762,12 @@ class LoggingLock(object):
         return self
 
     def __exit__(self, exc_type=None, *a):
-        if exc_type is not None and issubclass(exc_type, KeyError):
-            with self.rec.mutex:
-                self.rec.raw_keyerror(self.rec.t())
+        if exc_type is not None:
+            try:
+                with self.rec.mutex:
+                    self.rec.conversion_raised(self.rec.t())
+            except Exception:      # noqa
+                self.rec.unexpected.append('recorder failure: ' + traceback.format_exc()[-300:])
         self.release()
 
 
@@ -761,8 +816,8 @@ class Installed(object):
                 return res
             except BaseException as e:
                 req['outcome'] = 'err:' + type(e).__name__
-                if isinstance(e, KeyError):
-                    with rec.mutex:
+                with rec.mutex:
+                    if not rec.flush_x(t, False) and isinstance(e, KeyError):
                         rec.raw_keyerror(t)
                 raise
             finally:
@@ -773,10 +828,10 @@ class Installed(object):
             req = getattr(rec.tl, 'req', None)
             with rec.mutex:
                 rec.emit(rec.scan())
-                rec.log('xform', rec.t())
                 if req is not None:
-                    k = (req['code'], req['opt'])
-                    rec.xcount[k] = rec.xcount.get(k, 0) + 1
+                    if rec.t() in rec.pending_x or req.get('x_logged'):
+                        rec.emit([('unexpected', 'transform_ast ran twice in one request')])
+                    rec.pending_x[rec.t()] = req
             rec.maybe_yield()
             return orig_ast(node, ctx)
 
@@ -789,6 +844,7 @@ class Installed(object):
             if req is not None:
                 rec.maybe_yield()
                 with rec.mutex:
+                    rec.flush_x(rec.t(), True)
                     rec.emit(rec.scan())
                     rec.log('inst', rec.t(), rec.fact_serial(fself),
                             rec.env_serial(_env_key(globals_, closure, defaults, kwdefaults)))
@@ -827,14 +883,24 @@ def behave(g, args, fake):
     return r + ((tuple(fake.log[n0:]),) if fake is not None else ())
 
 
+class ConversionFailed(Exception):
+    pass
+
+
 def reference(entry, opt):
-    """Cache-less conversion of exactly this function object under exactly these options."""
+    """Cache-less conversion of exactly this function object under exactly these options
+    (ConversionFailed if it raises)."""
     ref = entry.refs.get(opt)
     if ref is None:
         _, api, converter, _, _, _ = _malt()
         tr = api.PyToPy()
-        ref, _, _ = tr.transform(entry.fn, converter.ProgramContext(options=make_opts(opt)))
+        try:
+            ref, _, _ = tr.transform(entry.fn, converter.ProgramContext(options=make_opts(opt)))
+        except Exception as e:      # noqa
+            ref = ConversionFailed(type(e).__name__)
         entry.refs[opt] = ref
+    if isinstance(ref, ConversionFailed):
+        raise ref
     return ref
 
 
@@ -850,19 +916,27 @@ def do_request(world, entry, opt, route, verdicts, where):
     fn = entry.fn
     info = dict(where, label=entry.label, opt=list(opt[:3]) + [list(opt[3])], route=route)
     try:
-        if route == 'to_graph':
-            g = malt.to_graph(fn, recursive=r, experimental_optional_features=feats)
+        try:
+            ref = reference(entry, opt)
+        except ConversionFailed:
+            ref = None
+        if route in ('to_graph', 'actual'):
+            try:
+                if route == 'to_graph':
+                    g = malt.to_graph(fn, recursive=r, experimental_optional_features=feats)
+                else:
+                    g = api._convert_actual(fn, converter.ProgramContext(options=make_opts(opt)))
+            except Exception as e:      # noqa
+                if ref is not None:
+                    verdicts.append(dict(info, what='request raised %s: %s (the cache-less reference conversion succeeds)'
+                                         % (type(e).__name__, str(e)[:200])))
+                return
+            if ref is None:
+                verdicts.append(dict(info, what='request returned a function although the cache-less reference conversion raises'))
+                return
             for a in entry.args:
                 got = behave(g, call_args(entry, a), entry.fake)
-                exp = behave(reference(entry, opt), call_args(entry, a), entry.fake)
-                if got != exp:
-                    verdicts.append(dict(info, what='behaviour differs from cache-less reference conversion',
-                                         args=list(a), got=repr(got), expected=repr(exp)))
-        elif route == 'actual':
-            g = api._convert_actual(fn, converter.ProgramContext(options=make_opts(opt)))
-            for a in entry.args:
-                got = behave(g, call_args(entry, a), entry.fake)
-                exp = behave(reference(entry, opt), call_args(entry, a), entry.fake)
+                exp = behave(ref, call_args(entry, a), entry.fake)
                 if got != exp:
                     verdicts.append(dict(info, what='behaviour differs from cache-less reference conversion',
                                          args=list(a), got=repr(got), expected=repr(exp)))
@@ -874,11 +948,14 @@ def do_request(world, entry, opt, route, verdicts, where):
                 call = malt.convert(recursive=r, optional_features=feats, user_requested=u)(fn)
             # the wrapper passes `self` itself for bound methods
             got = behave(call, tuple(a), entry.fake)
-            exp = behave(reference(entry, opt), call_args(entry, a), entry.fake)
+            if ref is not None:
+                exp = behave(ref, call_args(entry, a), entry.fake)
+            else:       # documented fallback: an unconvertible function runs as-is
+                exp = behave(fn, tuple(a), entry.fake)
             if got != exp:
                 verdicts.append(dict(info, what='converted call differs from cache-less reference conversion',
                                      args=list(a), got=repr(got), expected=repr(exp)))
-    except Exception as e:       # noqa  (a request that raises is itself a failing input)
+    except Exception as e:       # noqa
         verdicts.append(dict(info, what='request raised %s: %s' % (type(e).__name__, str(e)[:200])))
 
 
